@@ -142,6 +142,7 @@ func (a *SeekSubscriptionToSnapshot) Execute(ctx context.Context, tx *ent.Tx) er
 	if nda, err := tx.Delivery.Update().
 		Where(
 			delivery.SubscriptionID(sub.ID),
+			delivery.ExpiresAtGTE(now),
 			delivery.PublishedAtGTE(snap.AckedMessagesBefore),
 			delivery.MessageIDNotIn(snap.AckedMessageIDs...),
 			delivery.CompletedAtNotNil(),
